@@ -21,6 +21,11 @@ precursor
 All floats are f32 bit patterns, NaN canonicalised to 2143289344. `<style>` only steers the
 harness's XML rendering (white space, attribute order, wrapper names) and is ignored here.
 
+`mzmlseq <route 0|1|2> <k> { <style> <filter> <sn> <n> event… }×k  |  <k> result×k result×k`: k documents
+parsed back to back on one OS thread (route 0: `MzMLReader::parse`; 1 / 2: `read_spectra` on a file / gzip file),
+then each one alone on a fresh thread; spec: the two lists agree (`bad:depends_on_previous_document`) and each
+result passes the single-document spec.
+
 `mzmlraw <filter> <sn> <hex bytes>`: arbitrary bytes; only the outcome class is judged
 (spec `bad:panic` / `bad:hang`; agree always).
 -/
@@ -323,8 +328,45 @@ def specVerdict (cfg : Config) (evs : List (Event B32)) (impl : List String) : S
             | some n => "bad:" ++ n
             | none => "bad:unknown"
 
+/-- the tokens of one per-document result (`ok <n> spectrum…`, `err:<class>`, `panic`, `hang`) -/
+def pResultToks : P (List String) := do
+  let before ← get
+  let t ← tok
+  if t == "ok" then do
+    let _ ← list pSpecFields
+    let after ← get
+    pure (before.take (before.length - after.length))
+  else pure [t]
+
+def pSeqRequest : P (List (Config × List (Event B32))) := do
+  let _route ← tok
+  list pRequest
+
+/-- `mzmlseq`: the reply lists every document's result in the sequence, then every document's result when
+    parsed alone on a fresh thread -/
+def seqVerdict (docs : List (Config × List (Event B32))) (impl : List String) : String :=
+  match Proto.run (do
+      let k ← nat
+      let a ← listN pResultToks k
+      let b ← listN pResultToks k
+      pure (a, b)) impl with
+  | none => if impl == ["panic"] then "bad:panic" else if impl == ["hang"] then "bad:hang" else "na"
+  | some (inSeq, alone) =>
+    if inSeq.length != docs.length then "na"
+    else if inSeq != alone then "bad:depends_on_previous_document"
+    else
+      let vs := (docs.zip inSeq).map (fun (d, r) => specVerdict d.1 d.2 r)
+      match vs.find? (fun v => v.startsWith "bad") with
+      | some v => v
+      | none => if vs.all (· == "na") then "na" else "ok"
+
 def handle (op : String) (args impl : List String) : Option Reply :=
   match op with
+  | "mzmlseq" => do
+    let docs ← Proto.run pSeqRequest args
+    let results := (parseSeq docs).map outResult
+    let model := " ".intercalate (toString docs.length :: (results ++ results))
+    pure (exact model (" ".intercalate impl) (seqVerdict docs impl))
   | "mzml" => do
     let (cfg, evs) ← Proto.run pRequest args
     let model := outResult (parse cfg evs)
